@@ -744,7 +744,7 @@ impl Check for C05 {
     }
     fn scenarios(&self, tier: Tier) -> u64 {
         match tier {
-            Tier::Quick => 240,
+            Tier::Quick => 400,
             Tier::Thorough => 12000,
         }
     }
